@@ -18,7 +18,7 @@ import sys
 import xml.etree.ElementTree as ET
 
 VERIF = os.path.dirname(os.path.dirname(os.path.abspath(__file__)))
-CLAIMED = ['C01', 'C02', 'C04', 'C05', 'C06', 'C07', 'C08', 'C09', 'C10',
+CLAIMED = ['C01', 'C02', 'C03', 'C04', 'C05', 'C06', 'C07', 'C08', 'C09', 'C10',
            'C13', 'C14', 'C15', 'C16', 'C17', 'C18', 'C19', 'C20']
 
 
